@@ -177,7 +177,9 @@ func padBuffer(buffer []byte, blockSize int) []byte {
 
 // Remove padding
 func unpadBuffer(buffer []byte, blockSize int) ([]byte, error) {
-	if len(buffer)%blockSize != 0 {
+	// An empty buffer has no padding byte to look at (a ciphertext of zero
+	// blocks behind a valid tag, which whoever chose the key can produce).
+	if len(buffer) == 0 || len(buffer)%blockSize != 0 {
 		return nil, errors.New("square/go-jose: invalid padding")
 	}
 
